@@ -20,15 +20,27 @@
   * **first-line order** for well-formed first lines: `first_line_order_request` / `_reply` (from the C08
     specification theorems: method < URI < version, resp. version < status code < reason, each exactly the token
     of the text).
-  NOT yet proved (decided by the containment oracle on generated and hostile inputs and by the correspondence):
-  the lower bound (≥ start offset), header order / non-overlap, "name and value inside the header's own line" and the
-  nesting of sub-fields (for generic header lines the C07 theorems give name / value exactly; C09 gives the exact
-  spans of name-addr values, from which nesting follows for values of its grammar).
+  * **lower bound, order, own line** (`Sipsp.Proofs.FieldsLo`, re-exported below): every field starts at or after the
+    message start (one call, Init, every schedule), first-line order, header name / value inside their own line,
+    stored headers in buffer order without overlap, first line before headers, everything before the body, CSeq
+    nesting.
+  * **nesting of the name-addr sub-fields, for EVERY input** (`Sipsp.Proofs.NaNest`): `nameaddr_nested`,
+    `nameaddr_nested_new`, `nameaddr_nested_meaning`: after ParseNameAddrPVal returns OK / "more values" (a parse
+    started on a new object and continued over any objects returned with MoreBytes) the URI lies inside the value V
+    (for `*` it is V), the display name is unset or starts at or after V's start and ends at or before the URI, the
+    parameter span is unset or starts at or after the URI end and ends exactly where V ends, the tag is unset or lies
+    inside the parameter span; `msg_values_nested`, `msg_values_nested_init`, `msg_values_nested_schedule_init`,
+    `msg_values_nested_meaning`: after a successful ParseSIPMsg (one call, Init object, every chunk schedule) this
+    holds for From, To and every stored Contact / P-Asserted-Identity value.
+  NOT proved: trimming of white space inside name-addr spans (the code is not consistent there: `;tag= ,x` keeps the
+  blank inside V and the parameter span, `;tag=1 ,x` does not — the spans are still nested); strictness
+  `cseq end < method`.
 -/
 import Sipsp.Proofs.Layout
 import Sipsp.Properties.C01
 import Sipsp.Properties.C08
 import Sipsp.Proofs.FieldsLo
+import Sipsp.Proofs.NaNest
 
 namespace Sipsp.C05
 open Sipsp
@@ -241,5 +253,42 @@ theorem fields_before_body : type_of% @parseSIPMsg_before_body := @parseSIPMsg_b
 
 /-- … for any chain of resumed calls from Init -/
 theorem fields_before_body_schedule_init : type_of% @parseSIPMsg_before_body_schedule_init := @parseSIPMsg_before_body_schedule_init
+
+/-! ### nesting of the name-addr sub-fields, every input (proved in `Sipsp.Proofs.NaNest`) -/
+
+/-- **nesting theorem for ParseNameAddrPVal** (any header kind; buffers within the 65,535-byte limit): a parse of one
+    value that started at `lo` on a new object — in one call, or continued over the objects returned with MoreBytes —
+    and ends with OK or MoreValues leaves a value whose sub-fields are nested and ordered (`NaNest`) and which
+    starts at or after `lo`; after MoreBytes the object is again a legitimate argument at the returned offset. -/
+theorem nameaddr_nested : type_of% @Sipsp.parseNameAddrPVal_nest := @Sipsp.parseNameAddrPVal_nest
+
+/-- one call on a new object (the form used by the callers that parse a value in one go) -/
+theorem nameaddr_nested_new : type_of% @Sipsp.parseNameAddrPVal_nest_new := @Sipsp.parseNameAddrPVal_nest_new
+
+/-- **`NaNest`, spelled out** (a field `[offs, offs+len)`; an unset field is `{}` = `⟨0,0⟩`):
+    * the URI lies inside the value;
+    * the display name, if reported, starts inside the value and ends at or before the start of the URI;
+    * the parameter span, if reported, starts at or after the end of the URI, inside the value, and ends exactly
+      where the value ends;
+    * the tag, if reported, lies inside the parameter span (which is then reported), hence inside the value. -/
+theorem nameaddr_nested_meaning : type_of% @Sipsp.NaNest.meaning := @Sipsp.NaNest.meaning
+
+/-- **message, one call from the initial state** (same hypotheses as `parseSIPMsg_lo`): after a successful
+    ParseSIPMsg the From and To values (if such headers were seen) and every stored Contact and
+    P-Asserted-Identity value are nested -/
+theorem msg_values_nested : type_of% @Sipsp.parseSIPMsg_nn := @Sipsp.parseSIPMsg_nn
+
+/-- **message, one call on an object produced by Init** (any previous contents, caller arrays of any capacity or
+    none; buffers within the 65,535-byte limit) -/
+theorem msg_values_nested_init : type_of% @Sipsp.parseSIPMsg_nn_init := @Sipsp.parseSIPMsg_nn_init
+
+/-- **message, under every chunk schedule, from Init**: if the chain of resumed calls over growing prefixes ends
+    with OK, the name-addr header values of the final object are nested -/
+theorem msg_values_nested_schedule_init : type_of% @Sipsp.parseSIPMsg_nn_schedule_init := @Sipsp.parseSIPMsg_nn_schedule_init
+
+/-- **`HvNn`, spelled out** with `NaNest.meaning`: for From, To (unless untouched) and each stored Contact /
+    P-Asserted-Identity value `p`: URI inside `p.v`; display name (if any) inside `p.v` and before the URI; parameter
+    span (if any) after the URI, inside `p.v`, ending where `p.v` ends; tag (if any) inside the parameter span -/
+theorem msg_values_nested_meaning : type_of% @Sipsp.HvNn.meaning := @Sipsp.HvNn.meaning
 
 end Sipsp.C05
